@@ -15,6 +15,7 @@ import RTV.Drv.Periods
 import RTV.Drv.DtPeriod
 import RTV.Drv.Holiday
 import RTV.Drv.Durations
+import RTV.Drv.TimePeriod
 /-! Model driver: one operation per input line (tab-separated), one answer line per operation.
 Run compiled (`.lake/build/bin/rtvdriver`) or with `lake env lean --run Driver.lean`. -/
 open RTV.Drv
@@ -35,6 +36,7 @@ def dispatch (line : String) : String :=
       <|> dispatchDtPeriod op args
       <|> dispatchHoliday op args
       <|> dispatchDurations op args
+      <|> dispatchTimePeriod op args
       <|> dispatchDtRes op args
       <|> dispatchNum op args
       <|> dispatchSpan op args
